@@ -1,5 +1,6 @@
 import Proofs.FilterInter2
 import Proofs.FilterHeader
+import Proofs.FilterPhrase
 /-!
 # C11 — Filtering keeps exactly the n-grams a restricted decoder can query
 
@@ -77,6 +78,11 @@ theorem header_counts_counter (a : Arpa) (vs : Item → Verdict) (k : Nat) :
     KV.FilterDrv.renderArpa (countsHeader a.counts).length
         (KV.FilterCtl.fileLog k (KV.FilterCtl.seqLog vs (KV.FilterCtl.arpaProgram a.orders))) = arpaFile a vs k :=
   KV.FilterDrv.renderArpa_seqLog a vs k
+
+/-- raw format counterpart: the calls that reach file `k`, written by `CountOutput`, are `rawFile` -/
+theorem raw_counter (items : List Item) (vs : Item → Verdict) (k : Nat) :
+    KV.FilterDrv.renderRaw (KV.FilterCtl.fileLog k (KV.FilterCtl.seqLog vs (KV.FilterCtl.rawProgram items))) = rawFile items vs k :=
+  KV.FilterDrv.renderRaw_seqLog items vs k
 
 /-! ## which n-grams are kept -/
 
@@ -348,14 +354,70 @@ example :
   simp only [List.all_eq_true]
   exact hg
 
-/-! ## phrase mode (specification only) -/
+/-! ## phrase mode
 
-/-- `g` can be read off a concatenation of phrases: a (possibly empty) proper suffix of a
-phrase, then whole phrases, then a (possibly empty) proper prefix of a phrase — or `g` is a
-substring of one phrase. -/
-def Tiles (phrases : List (List Bytes)) (g : List Bytes) : Prop :=
-  (∃ p ∈ phrases, ∃ a b, p = a ++ g ++ b) ∨
-  (∃ (suf : List Bytes) (mid : List (List Bytes)) (pre : List Bytes), g = suf ++ mid.flatten ++ pre ∧ (∀ m ∈ mid, m ∈ phrases) ∧
-     (suf = [] ∨ ∃ p ∈ phrases, ∃ a, p = a ++ suf) ∧ (pre = [] ∨ ∃ p ∈ phrases, ∃ b, p = pre ++ b))
+`Tiles phrases g` (Proofs/FilterPhrase.lean): `g` is a contiguous part of one phrase, or a
+non-empty end of a phrase ++ whole phrases ++ a non-empty beginning of a phrase — exactly "can
+be read off a concatenation of the sentence's phrases".  `tilesB` is its executable form (the
+driver's lower bound `.must<k>`, cross-checked against an independent Python DP and a literal
+enumeration of concatenations).  `graphAccept` models the arcs `BuildGraph` creates from the
+`Substrings` tables, including the `break`s on absent keys, with acceptance = a path of arcs
+that all contain the sentence; the checks compare it **byte for byte** with `bin/filter phrase`.
+Not modelled, hence not proved: the lazy evaluation of that graph (`Vertex::LowerBound` /
+`Arc::LowerBound` with priority queues) and hashing — tied by that exact correspondence. -/
+
+/-- **phrase_sound** (one direction, as the property states; for the search graph): every
+n-gram that can be read off a concatenation of the phrases of sentence `s` is accepted for `s` -/
+theorem phrase_sound (sents : List (List (List Bytes))) (s : Nat) (g : List Bytes)
+    (h : Tiles (sents.getD s []) g) : graphAccept sents s g = true :=
+  tilesB_graphAccept sents s g (tilesB_of_Tiles _ g h)
+
+/-- … and therefore sentence `s` is among the outputs of the model of `phrase::Multiple`
+(resp. the n-gram passes `phrase::Union`) -/
+theorem phrase_sound_multiple (sents : List (List (List Bytes))) (ws : List Bytes) (s : Nat) (hs : s < sents.length)
+    (h : Tiles (sents.getD s []) (phraseWords ws)) :
+    phraseVerdict sents ws = .all ∨ ∃ ks, phraseVerdict sents ws = .only ks ∧ s ∈ ks := by
+  unfold phraseVerdict
+  by_cases hg : phraseWords ws = []
+  · left; simp [hg]
+  · right
+    simp only [hg, if_false]
+    refine ⟨_, rfl, ?_⟩
+    simp only [List.mem_filter, List.mem_range]
+    exact ⟨hs, phrase_sound sents s _ h⟩
+
+theorem phrase_sound_union (sents : List (List (List Bytes))) (ws : List Bytes) (s : Nat) (hs : s < sents.length)
+    (h : Tiles (sents.getD s []) (phraseWords ws)) : phraseVerdictUnion sents ws = .all := by
+  unfold phraseVerdictUnion
+  rcases phrase_sound_multiple sents ws s hs h with h | ⟨ks, h, hk⟩
+  · rw [h]
+  · rw [h]
+    cases ks with
+    | nil => cases hk
+    | cons k ks => rfl
+
+/-- the lower bound the checks enforce is implied by the graph model (so "tool = graph model"
+on a run implies "tool ⊇ Tiles" on that run) -/
+theorem must_le_graph (sents : List (List (List Bytes))) (ws : List Bytes) (ks : List Nat) (s : Nat)
+    (h : phraseMust sents ws = .only ks) (hs : s ∈ ks) :
+    ∃ ks', phraseVerdict sents ws = .only ks' ∧ s ∈ ks' := by
+  unfold phraseMust at h
+  unfold phraseVerdict
+  by_cases hg : phraseWords ws = []
+  · simp [hg] at h
+  · simp only [hg, if_false] at h ⊢
+    injection h with h; subst h
+    refine ⟨_, rfl, ?_⟩
+    simp only [List.mem_filter, List.mem_range] at hs ⊢
+    exact ⟨hs.1, tilesB_graphAccept sents s _ hs.2⟩
+
+/-- non-vacuity: the n-gram of seeded/C11-1 — `a b c d` tiles sentence 3 (`a | b c | d`) only
+(a = 97, b = 98, c = 99, d = 100, y = 121, z = 122) -/
+example :
+    let sents : List (List (List Bytes)) :=
+      [[[[98]]], [[[99]], [[100]]], [[[122]]], [[[97]], [[98], [99]], [[100]]], [[[122]], [[121]]], [[[97]], [[98]]]]
+    let g : List Bytes := [[97], [98], [99], [100]]
+    (List.range 6).filter (fun s => tilesB (sents.getD s []) g) = [3] ∧
+      (List.range 6).filter (fun s => graphAccept sents s g) = [3] := by decide
 
 end KV.C11
